@@ -405,11 +405,12 @@ class Taylor3D(object):
         """
         HDF5group.attrs['type'] = self.__class__.__name__
         HDF5group.attrs['Lmax'] = self.Lmax
-        for (n, l, c) in self.coefflist:
+        for order, (n, l, c) in enumerate(self.coefflist):
             coeffstr = self.HDF5str.format(n, l)
             HDF5group[coeffstr] = c
             HDF5group[coeffstr].attrs['n'] = n
             HDF5group[coeffstr].attrs['l'] = l
+            HDF5group[coeffstr].attrs['order'] = order  # position in coefflist, restored on load
 
     @classmethod
     def loadhdf5(cls, HDF5group):
@@ -420,12 +421,15 @@ class Taylor3D(object):
         :return T3D: new T3D object
         """
         t3d = cls()  # initialize
-        for k, c in HDF5group.items():
+        entries = []
+        for pos, (k, c) in enumerate(HDF5group.items()):
             n = HDF5group[k].attrs['n']
             l = HDF5group[k].attrs['l']
             if l > t3d.Lmax or l < 0:
                 raise ValueError('HDF5 group data contains illegal l = {} for {}'.format(l, k))
-            t3d.coefflist.append((n, l, c[()]))
+            # restore the saved order of terms (files without the attribute keep the HDF5 name order)
+            entries.append((HDF5group[k].attrs.get('order', pos), pos, (n, l, c[()])))
+        t3d.coefflist = [entry for order, pos, entry in sorted(entries, key=lambda e: e[:2])]
         return t3d
 
     def dumpinternalsHDF5(self, HDF5group):
